@@ -11,6 +11,17 @@ for ln in st:
     if path == "KNOWN_FINDINGS.jsonl" and "U" in code or (path == "KNOWN_FINDINGS.jsonl" and code == "AA"):
         ours, theirs = show(2, path), show(3, path)
         seen, out = set(), []
+        # entries removed on main on purpose (repaired defects, or examined and found not to be findings)
+        dropped = set(tuple(x) for x in json.load(open("tools/known_dropped.json"))) if os.path.exists("tools/known_dropped.json") else set()
+        # a kind that either side records as fixed stays fixed
+        fixed = {}
+        for text in (ours, theirs):
+            for l in text.splitlines():
+                try:
+                    j = json.loads(l)
+                    if j.get("status") == "fixed": fixed[(j.get("property"), j.get("kind"))] = l
+                except Exception:
+                    pass
         for text in (ours, theirs):
             for l in text.splitlines():
                 if not l.strip(): continue
@@ -22,6 +33,8 @@ for ln in st:
                 except Exception:
                     key = l
                 if key in seen: continue
+                if isinstance(key, tuple) and j.get("status") == "known" and key in dropped: continue
+                if key in fixed: l = fixed[key]
                 seen.add(key); out.append(l)
         open(path, "w").write("\n".join(out) + "\n"); git("add", path); print("resolved", path)
     elif path.endswith(".nra.cache") or path.endswith(".lia.cache"):
